@@ -103,7 +103,7 @@ def build_cases(ctx):
     per_field = ctx.pick(3, 9)
     cases = []
     for name in se.NAMES:
-        for base in se.grid(name, rng, ctx.pick(1, 3)):
+        for base in se.grid(name, rng, ctx.pick(3, 4)):
             if name == "SSE2":
                 base = dict(base, param_n=6)
             for label, cfg in variants(name, base, rng, per_field):
@@ -159,7 +159,7 @@ def correspond(ctx):
             except Exception:
                 res.count("missing parameter refused at build")
     res.extra["schemes_modelled"] = list(sc.MODELLED)
-    res.rule = (f"per scheme {ctx.pick(1, 3)} base configuration(s); every field deleted once; every length field over {per_field} of {LENGTHS} "
+    res.rule = (f"per scheme {ctx.pick(3, 4)} base configurations; every field deleted once; every length field over {per_field} of {LENGTHS} "
                 f"and every block / capacity field over {per_field} of {BLOCKS} plus one non-integer of {NONINT}; every primitive name over valid "
                 "aliases, another primitive's name, an unknown name and the empty string; each with a database valid for it; non-trivial = "
                 "distinct (scheme, varied field, value)")
